@@ -30,6 +30,7 @@ type Path struct {
 	Sinks   map[string]*Obj // writer access path -> bytes written
 	Notes   []string
 	Bounds  []BoundOb
+	NilNames map[string]bool // lazily symbolic pointers/interfaces/slices with these names are nil
 	Keep    map[string]Value // harness scratch: arguments kept for result inspection
 	Abort   string // non-empty: the path could not be interpreted ("unsupported ...")
 	Panics  string // non-empty: the path ends in a panic
